@@ -237,6 +237,12 @@ func (fst *FSTree) queryExecutor(walkRoot string, queryIter *iterator.Iterator, 
 		if err != nil {
 			return fmt.Errorf("fstree: failed to extract key from filepath %s: %w", path, err)
 		}
+		key = filepath.ToSlash(key)
+		if !q.MatchesKey(key) {
+			// The walk starts at a directory, which may hold more than the
+			// records that match the key prefix.
+			return nil
+		}
 		r, err := record.NewRawWrapper(fst.name, key, data)
 		if err != nil {
 			return fmt.Errorf("fstree: failed to load file %s: %w", path, err)
